@@ -348,6 +348,9 @@ func RunHistories(run *ev.Run) {
 		}(i, j)
 	}
 	wg.Wait()
+	if run.Prop == "C16" {
+		runs += emptyConstraint(run, bin, base)
+	}
 	run.Cov["worlds"] = len(jobs)
 	run.Cov["history_depth"] = depth
 	run.Cov["states"] = states
@@ -364,4 +367,44 @@ func RunHistories(run *ev.Run) {
 	sort.Strings(names)
 	run.Cov["world_names"] = names
 	run.Cov["rule"] = "explicit-state breadth-first search over file trees: events {run goverter, edit input to v1/v2 (types renamed)/v3 (failing), corrupt output body below its two header lines, append garbage to output, delete output} up to the history depth, states deduplicated on the canonical tree (paths, modes, content hashes); after every run on a good version: exit 0, outputs byte-equal to generation on a clean tree, header line + //go:build constraint line present, nothing else touched; on the failing version: exit 1 and tree unchanged. Worlds = output layouts (separate package with a constraint-guarded user file, same package as the interface, two converters sharing one file, goverter:variables .gen.go) x (-build-tags, -output-constraint) pairs"
+}
+
+// emptyConstraint: with -output-constraint "" the //go:build line is omitted (and only then): for every layout the
+// first generation on a clean tree is checked for header, absence of a constraint line, and the tree compiling. The
+// recovery guarantee does not apply to this configuration (the outputs are part of the loaded packages).
+func emptyConstraint(run *ev.Run, bin, base string) int {
+	n := 0
+	for _, l := range histLayouts() {
+		for _, form := range [][]string{{"-output-constraint", ""}, {"-output-constraint="}} {
+			t := fshist.Tree{"go.mod": {Data: []byte("module vx\n\ngo 1.22\n"), Mode: 0o644}}
+			t = setVersion(t, l, 1, "!goverter")
+			// constraint-guarded user files keep the default constraint: they are excluded while goverter loads
+			args := append(append([]string{"gen"}, form...), l.pattern...)
+			after, r, err := fshist.RunIn(bin, t, filepath.Join(base, fmt.Sprint("empty-", l.name, len(form))), "", nil, args...)
+			n++
+			if err != nil {
+				fmt.Fprintln(os.Stderr, "HARNESS-ERROR:", err)
+				run.Harness = true
+				continue
+			}
+			cls := l.name + "/empty-constraint"
+			run.Outcome(fmt.Sprintf("world:%s/exit:%d", cls, r.Exit))
+			cs := map[string]any{"kind": "history", "world": cls, "history": []string{"run " + strings.Join(args, " ")}}
+			if r.Exit != 0 {
+				run.Report(ev.Violation{Site: cls + "|clean-generation-blocked", Symptom: "regeneration-blocked",
+					Detail: fmt.Sprintf("goverter %q on a clean tree fails with exit %d:\n%s", args, r.Exit, firstN(r.Stderr, 800)), Case: cs})
+				continue
+			}
+			for _, o := range l.outputs {
+				lines := strings.SplitN(string(after[o].Data), "\n", 3)
+				switch {
+				case len(lines) < 2 || !strings.HasPrefix(lines[0], "// Code generated by") || !strings.HasSuffix(lines[0], "DO NOT EDIT."):
+					run.Report(ev.Violation{Site: cls + "|header", Symptom: "header", Detail: o + ": first line is not the generated-code header", Case: cs})
+				case strings.HasPrefix(strings.TrimSpace(lines[1]), "//go:build") || strings.HasPrefix(strings.TrimSpace(lines[1]), "// +build"):
+					run.Report(ev.Violation{Site: cls + "|constraint", Symptom: "constraint", Detail: fmt.Sprintf("%s: an empty output constraint is configured but the second line is %q", o, lines[1]), Case: cs})
+				}
+			}
+		}
+	}
+	return n
 }
